@@ -30,6 +30,9 @@ RENDER = 'mindsdb_sql.render.sqlalchemy_render'
 FN = f'{RENDER}:SqlalchemyRender.prepare_select,{RENDER}:SqlalchemyRender.to_expression'
 
 
+from mindsdb_sql.exceptions import ParsingException
+
+
 def stmt_of(sql, dialect='sqlite'):
     from mindsdb_sql import parse_sql
     from mindsdb_sql.render.sqlalchemy_render import SqlalchemyRender
@@ -541,13 +544,17 @@ def replay_exec_dml(sql):
     try:
         con1, con2 = sqlite_env(), sqlite_env()
         con1.execute(sql)
-        txt = text_of(sql, 'sqlite')
-        con2.execute(txt)
-        want, got = _dump(con1), _dump(con2)
-    except (NotImplementedError, SQLAlchemyError) as e:
-        return {'input': sql, 'dialect': 'mindsdb', 'fires': False, 'observed': f'refused: {type(e).__name__}'}
     except Exception as e:
-        return {'input': sql, 'dialect': 'mindsdb', 'fires': False, 'observed': f'cannot execute: {type(e).__name__}: {e}'[:120]}
+        return {'input': sql, 'dialect': 'mindsdb', 'fires': False, 'observed': f'the original does not run on sqlite: {type(e).__name__}: {e}'[:120]}
+    try:
+        txt = text_of(sql, 'sqlite')
+    except (NotImplementedError, SQLAlchemyError, ParsingException) as e:
+        return {'input': sql, 'dialect': 'mindsdb', 'fires': False, 'observed': f'refused: {type(e).__name__}'}
+    try:
+        con2.execute(txt)
+    except Exception as e:
+        return {'input': sql, 'dialect': 'mindsdb', 'fires': True, 'observed': f'rendered `{" ".join(txt.split())}` fails on sqlite: {type(e).__name__}: {e}'[:300], 'expected': 'the effect of the original statement'}
+    want, got = _dump(con1), _dump(con2)
     diff = {k: (want.get(k), got.get(k)) for k in set(want) | set(got) if want.get(k) != got.get(k)}
     return {'input': sql, 'dialect': 'mindsdb', 'fires': bool(diff), 'observed': f'rendered `{" ".join(txt.split())}` leaves {({k: v[1] for k, v in diff.items()})}'[:300],
             'expected': f'{({k: v[0] for k, v in diff.items()})}'[:200]}
@@ -575,9 +582,19 @@ def run_both(sql):
 
 def replay_exec(sql):
     try:
-        want, got, txt = run_both(sql)
+        con = sqlite_env()
+        want = con.execute(sql).fetchall()
     except Exception as e:
-        return {'input': sql, 'dialect': 'mindsdb', 'fires': False, 'observed': f'cannot execute: {type(e).__name__}: {e}'[:120]}
+        return {'input': sql, 'dialect': 'mindsdb', 'fires': False, 'observed': f'the original does not run on sqlite: {type(e).__name__}: {e}'[:120]}
+    try:
+        txt = text_of(sql, 'sqlite')
+    except (NotImplementedError, SQLAlchemyError, ParsingException) as e:
+        return {'input': sql, 'dialect': 'mindsdb', 'fires': False, 'observed': f'refused: {type(e).__name__}'}
+    try:
+        got = con.execute(txt).fetchall()
+    except Exception as e:
+        # the original runs, the rendering does not: not the same statement
+        return {'input': sql, 'dialect': 'mindsdb', 'fires': True, 'observed': f'rendered `{" ".join(txt.split())}` fails on sqlite: {type(e).__name__}: {e}'[:300], 'expected': f'{want}'[:200]}
     ordered = 'order by' in sql.lower()
     same = (want == got) if ordered else (sorted(map(repr, want)) == sorted(map(repr, got)))
     return {'input': sql, 'dialect': 'mindsdb', 'fires': not same, 'observed': f'rendered `{" ".join(txt.split())}` returns {got}'[:300], 'expected': f'{want}'[:200]}
@@ -598,8 +615,52 @@ EXEC_QUERIES = [
 ]
 
 
+def _family_queries():
+    """generated families: every predicate form with and without negation (row sets differ on the test tables), and string constants with characters
+    that need care in a literal, in every statement kind"""
+    out = []
+    preds = {'exists': 'exists (select 1 from u where u.a = t.a)', 'in-sub': 'a in (select a from u)', 'in-list': 'a in (1, 8)', 'between': 'b between 2 and 3', 'like': "c like 'x%'",
+             'is-null': 'b is null', 'eq': 'a = 2', 'lt': 'b < 3', 'is-true': '(a = 2) is true'}
+    neg = {'exists': 'not exists (select 1 from u where u.a = t.a)', 'in-sub': 'a not in (select a from u where a is not null)', 'in-list': 'a not in (1, 8)', 'between': 'b not between 2 and 3',
+           'like': "c not like 'x%'", 'is-null': 'b is not null', 'eq': 'not a = 2', 'lt': 'not b < 3', 'is-true': '(a = 2) is not true'}
+    for k in preds:
+        out.append((f'pred.{k}', f'select id from t where {preds[k]}'))
+        out.append((f'pred.not-{k}', f'select id from t where {neg[k]}'))
+        out.append((f'pred.{k}.and', f'select id from t where id > 1 and {preds[k]}'))
+        out.append((f'pred.not-{k}.or', f'select id from t where id = 1 or {neg[k]}'))
+    for name, lit in (('squote', "it''s"), ('two-squotes', "a''b''c"), ('only-squote', "''"), ('backslash', 'a\\b'), ('percent', '50%'), ('dquote', 'say "x"'), ('comment', "x'' -- y"), ('semicolon', 'a;b'),
+                      ('backtick', 'a`b'), ('colon', ':p1'), ('newline', 'a\nb')):
+        out.append((f'lit.{name}.select', f"select id, '{lit}' from t where c = 'x'"))
+        out.append((f'lit.{name}.where', f"select id from t where c = '{lit}' or c <> '{lit}' order by id"))
+    return out
+
+
+def _family_dml():
+    out = []
+    for name, lit in (('squote', "it''s"), ('comment', "x'' -- y"), ('backslash', 'a\\b'), ('colon', ':p1'), ('percent', '50%')):
+        out.append((f'lit.{name}.update', f"UPDATE t SET c = '{lit}' WHERE a = 2"))
+        out.append((f'lit.{name}.insert', f"INSERT INTO t (id, c) VALUES (20, '{lit}')"))
+        out.append((f'lit.{name}.delete', f"DELETE FROM t WHERE c <> '{lit}'"))
+    for k, cond in (('exists', 'exists (select 1 from u where u.a = t.a)'), ('not-exists', 'not exists (select 1 from u where u.a = t.a)'), ('not-in', 'a not in (1, 8)'), ('not-between', 'b not between 2 and 3')):
+        out.append((f'pred.{k}.delete', f'DELETE FROM t WHERE {cond}'))
+        out.append((f'pred.{k}.update', f'UPDATE t SET b = 0 WHERE {cond}'))
+    return out
+
+
 def bounded(rep, tier):
     n = 0
+    fam = _family_queries()
+    for name, sql in fam:
+        n += 1
+        r = replay_exec(sql)
+        if r['fires']:
+            rep.add_bounded(Bounded(f'C06.bounded.exec.{name}', False, sql, r['observed'], r.get('expected'), bound=f'{len(fam)} generated queries'))
+    famd = _family_dml()
+    for name, sql in famd:
+        n += 1
+        r = replay_exec_dml(sql)
+        if r['fires']:
+            rep.add_bounded(Bounded(f'C06.bounded.exec.{name}', False, sql, r['observed'], r.get('expected'), bound=f'{len(famd)} generated statements'))
     for i, sql in enumerate(EXEC_QUERIES):
         n += 1
         r = replay_exec(sql)
